@@ -403,11 +403,11 @@ def main():
         only_m = [i for i in M if i not in set(O)]
         if only_m and not O:
             found = None
-            for extra in range(1, 4):  # directed search: more seeds, thorough-size exhaustive scope
+            for extra in range(1, 3 if fam.get('par') else 4):  # directed search: more seeds, thorough-size exhaustive scope
                 more = []
                 for (mode, nq, nt) in fam['runs']:
                     try:
-                        more += harness_gen(binp, fam['name'], max(nq, 1) * 2, seed + 1000 * extra, mode, 'thorough' if extra == 3 else tier, par=fam.get('par', 1))
+                        more += harness_gen(binp, fam['name'], max(nq, 1) * (1 if fam.get('par') else 2), seed + 1000 * extra, mode, 'thorough' if (extra == 3 and not fam.get('par')) else tier, par=fam.get('par', 1))
                     except Exception:
                         pass
                     if len(more) > 20000:
